@@ -30,8 +30,6 @@ RULE = ("Hypothesis op sequences (<=24 ops): open stream (client/server initiate
         "(class multiset, event shape)")
 ASSUMPTIONS = [
     "only events aioquic can deliver are generated (see module docstring)",
-    "while a stream's hook is withheld at most one closing event is queued for that stream (the C29 finding "
-    "'queued data dropped at early end' is not re-counted here)",
     "a proxy-initiated CloseQuicConnection is answered by QuicConnectionClosed for that connection, as QuicLayer does",
 ]
 TECHNIQUE = "Hypothesis event interleavings through RawQuicLayer vs. tag-based stream pairing model"
@@ -60,7 +58,6 @@ class Pair:
         self.ids[init] = peer_id
         self.sent = [[], []]  # payloads received from side X (to be relayed to 1-X)
         self.term = [None, None]  # how side X finished its sending direction: None | "fin" | ("reset", code)
-        self.closes_in_hold = 0
 
     def can_send(self, side):
         return (not self.uni) or side == self.init
@@ -170,21 +167,15 @@ def check_case(case, ctx):
             after_close(p)
 
     def closing_allowed(p):
-        """a second closing event for a stream is only generated once the first one has certainly been processed
-        (no hook of that stream pending since), see ASSUMPTIONS"""
-        return not p.closes_in_hold
+        return True
 
     def after_close(p):
         if p in held_pairs():
-            p.closes_in_hold = 1
+            flags.add("close-queued-behind-held-hook")
 
     for op in case["ops"]:
         if d.crashed is not None:
             break
-        hp = held_pairs()
-        for p in pairs:
-            if p.closes_in_hold and p not in hp:
-                p.closes_in_hold = 0
         k = op[0]
         if k in ("new", "newreset"):
             side, uni, skip = op[1], bool(op[2]), op[3]
